@@ -613,9 +613,9 @@ def counter_of(mod):
     return getattr(mod, "argument_var_counter", None)
 
 
-def simplify(mod, a, inst=None):
+def simplify(mod, a, inst=None, copy_input=True):
     t = inst if inst is not None else mod.simplify_chained_calls()
-    return t.visit(copy.deepcopy(a))
+    return t.visit(copy.deepcopy(a) if copy_input else a)
 
 
 def to_text(a):
@@ -651,7 +651,7 @@ class Node:
             r = self.refs_cache[text] = [ev(a, d) for d in self.data]
         return r
 
-    def serve(self, text, refs, origin, root, stack=None):
+    def serve(self, text, refs, origin, root, stack=None, deep=False):
         """Simplify `text` under the node's current history and compare with `refs` (the
         outcomes of the query this text stands for)."""
         a = parse_query(text)
@@ -672,9 +672,9 @@ class Node:
                     self.stat("transformer_instances_kept")
                 else:
                     self.stat("probe_transformer_instance_reused")
-                s = simplify(self.mod, a, self.inst)
+                s = simplify(self.mod, a, self.inst, copy_input=not deep)
             else:
-                s = simplify(self.mod, a)
+                s = simplify(self.mod, a, copy_input=not deep)
         except RecursionError:
             if window is not None:
                 window.restore()
@@ -690,10 +690,10 @@ class Node:
         if window is not None:
             window.restore()
         try:
-            out_text = to_text(s)
+            out_text = "<unprintable>" if deep else to_text(s)
         except Exception:
             out_text = "<unprintable>"
-        if out_text != ast.unparse(a):
+        if not deep and out_text != ast.unparse(a):
             self.stat("queries_changed_by_simplifier")
         self.stat("served")
         bad = None
@@ -805,7 +805,7 @@ class Node:
 
                 def ok(n):
                     try:
-                        simplify(self.mod, parse_query(deep(n)))
+                        simplify(self.mod, parse_query(deep(n)), copy_input=False)
                         return True
                     except RecursionError:
                         return False
@@ -832,7 +832,7 @@ class Node:
                             text = deep(n)
                             refs = self.refs_for(text)
                             self.resolved.append({"op": "serve", "q": text})
-                            rec = self.serve(text, refs, "deep", text)
+                            rec = self.serve(text, refs, "deep", text, deep=True)
                             if rec:
                                 rec["out"] = "<unprintable>"  # too deep to round-trip
                                 self.served.append(rec)
